@@ -138,6 +138,164 @@ async fn run_script(steps: &[Value]) -> Vec<Value> {
     out
 }
 
+
+// ---------------------------------------------------------------------------------------------
+// Server-level cluster driver: several REAL `spawn_chitchat` loops on one controlled transport,
+// paused clock, staggered gossip rounds (node i ticks at seconds i, i+K, i+2K, ...). The driver
+// decides when an in-flight datagram is delivered, dropped or duplicated; everything the loops do is
+// recorded at message granularity and validated by TraceGossip: a round of node n is the model
+// sequence Heartbeat(n); Gc(n); CreateSyn(n,p) for every SYN it sent; Liveness(n).
+mod cluster {
+    use super::*;
+    use chitchat::{ChitchatHandle, NodeState};
+    use rand::prelude::*;
+    use std::collections::HashMap;
+    use std::sync::atomic::{AtomicUsize, Ordering};
+    use vharness::world::{digest_model, name_of_cid, wmsg_model};
+
+    #[derive(Default)]
+    pub struct Net { pub sent: Vec<(SocketAddr, SocketAddr, Vec<u8>)>, pub inbox: HashMap<SocketAddr, UnboundedSender<Item>> }
+    pub struct CtlTransport { pub net: Arc<Mutex<Net>> }
+    pub struct CtlSocket { addr: SocketAddr, rx: UnboundedReceiver<Item>, net: Arc<Mutex<Net>> }
+
+    #[async_trait]
+    impl Transport for CtlTransport {
+        async fn open(&self, listen_addr: SocketAddr) -> anyhow::Result<Box<dyn Socket>> {
+            let (tx, rx) = unbounded_channel();
+            self.net.lock().unwrap().inbox.insert(listen_addr, tx);
+            Ok(Box::new(CtlSocket { addr: listen_addr, rx, net: self.net.clone() }))
+        }
+    }
+    #[async_trait]
+    impl Socket for CtlSocket {
+        async fn send(&mut self, to: SocketAddr, msg: ChitchatMessage) -> anyhow::Result<()> {
+            self.net.lock().unwrap().sent.push((self.addr, to, msg.serialize_to_vec()));
+            Ok(())
+        }
+        async fn recv(&mut self) -> anyhow::Result<(SocketAddr, ChitchatMessage)> {
+            match self.rx.recv().await {
+                Some(Item::Msg(from, bytes)) => { let mut cur: &[u8] = &bytes; Ok((from, ChitchatMessage::deserialize(&mut cur)?)) }
+                Some(Item::Fatal) => anyhow::bail!("fatal"),
+                None => std::future::pending().await,
+            }
+        }
+    }
+
+    struct N { name: String, handle: ChitchatHandle, cb: Arc<AtomicUsize>, wrx: tokio::sync::watch::Receiver<std::collections::BTreeMap<chitchat::ChitchatId, NodeState>>, wseq: u64 }
+
+    fn name_of_addr(a: &SocketAddr) -> String { format!("n{}", a.port() - 10000) }
+
+    async fn project(n: &mut N, start: tokio::time::Instant) -> Value {
+        if n.wrx.has_changed().unwrap_or(false) { n.wseq += 1; let _ = n.wrx.borrow_and_update(); }
+        let cc = n.handle.chitchat();
+        let g = cc.lock().await;
+        let mut ns = serde_json::Map::new();
+        for (id, st) in g.node_states() {
+            let mut kv = serde_json::Map::new();
+            for (k, vv) in st.key_values_including_deleted() {
+                let (stn, ts) = match vv.status { chitchat::DeletionStatus::Set => ("Set", 0), chitchat::DeletionStatus::Deleted(i) => ("Del", (i - start).as_secs()), chitchat::DeletionStatus::DeleteAfterTtl(i) => ("Ttl", (i - start).as_secs()) };
+                kv.insert(k.to_string(), json!({"val": vv.value, "ver": vv.version, "st": stn, "ts": ts}));
+            }
+            ns.insert(name_of_cid(id), json!({"hb": u64::from(st.heartbeat()), "max": st.max_version(), "gc": st.last_gc_version(), "kv": kv}));
+        }
+        let setm = |it: &mut dyn Iterator<Item = &chitchat::ChitchatId>| { let mut m = serde_json::Map::new(); for id in it { m.insert(name_of_cid(id), json!(true)); } Value::Object(m) };
+        let live = setm(&mut g.live_nodes());
+        let dead = setm(&mut g.dead_nodes());
+        let sched = setm(&mut g.scheduled_for_deletion_nodes());
+        let mut w = serde_json::Map::new();
+        for (id, st) in n.wrx.borrow().iter() { w.insert(name_of_cid(id), json!(st.max_version())); }
+        json!({"ns": ns, "live": live, "dead": dead, "sched": sched, "watch": w, "wseq": n.wseq, "cb": n.cb.load(Ordering::SeqCst)})
+    }
+
+    fn model_msg(from: &SocketAddr, to: &SocketAddr, bytes: &[u8]) -> Value {
+        match codec::decode(bytes) {
+            Ok(d) => { let mut v = wmsg_model(&d.msg, &|x| x.to_string()); v["src"] = json!(name_of_addr(from)); v["dst"] = json!(name_of_addr(to)); v }
+            Err(e) => json!({"t": "Undecodable", "err": e}),
+        }
+    }
+
+    pub async fn run(seed: u64, k: usize, steps: usize, out: &mut impl Write) {
+        let _ = digest_model;
+        let mut rng = StdRng::seed_from_u64(seed);
+        let net = Arc::new(Mutex::new(Net::default()));
+        let transport = CtlTransport { net: net.clone() };
+        let start = tokio::time::Instant::now();
+        let names: Vec<String> = (1..=k).map(|i| format!("n{i}")).collect();
+        let mut nodes: Vec<N> = Vec::new();
+        let mut clock = 0u64;
+        let mut consumed = 0usize;       // entries of net.sent already turned into events
+        let mut wire: Vec<(SocketAddr, SocketAddr, Vec<u8>)> = Vec::new();
+        writeln!(out, "{}", json!({"a": "Reset", "seed": seed})).unwrap();
+        // emits the events of a round of node idx (its sends since `consumed`)
+        macro_rules! round { ($idx:expr) => {{
+            let name = nodes[$idx].name.clone();
+            writeln!(out, "{}", json!({"a": "Heartbeat", "n": name, "clock": clock})).unwrap();
+            writeln!(out, "{}", json!({"a": "Gc", "n": name, "clock": clock})).unwrap();
+            let new: Vec<(SocketAddr, SocketAddr, Vec<u8>)> = { let g = net.lock().unwrap(); g.sent[consumed..].to_vec() };
+            consumed += new.len();
+            for (f, t, b) in new { writeln!(out, "{}", json!({"a": "CreateSyn", "n": name, "to": name_of_addr(&t), "out": model_msg(&f, &t, &b), "clock": clock})).unwrap(); wire.push((f, t, b)); }
+            let post = project(&mut nodes[$idx], start).await;
+            writeln!(out, "{}", json!({"a": "Liveness", "n": name, "clock": clock, "post": post})).unwrap();
+        }}; }
+        // spawn node i at second i-1; its first round runs at once
+        for (i, name) in names.iter().enumerate() {
+            if i > 0 { tokio::time::advance(Duration::from_secs(1)).await; settle().await; clock += 1; writeln!(out, "{}", json!({"a": "Advance", "d": 1, "clock": clock})).unwrap(); }
+            let cb = Arc::new(AtomicUsize::new(0));
+            let cb2 = cb.clone();
+            let config = ChitchatConfig {
+                chitchat_id: cid(name), cluster_id: "c".into(), gossip_interval: Duration::from_secs(k as u64), listen_addr: addr_of(name),
+                seed_nodes: vec![addr_of("n1").to_string()],
+                failure_detector_config: FailureDetectorConfig { phi_threshold: 4.0, sampling_window_size: 3, max_interval: Duration::from_secs(10), initial_interval: Duration::from_secs(3), dead_node_grace_period: Duration::from_secs(12) },
+                marked_for_deletion_grace_period: Duration::from_secs(4),
+                catchup_callback: Some(Box::new(move || { cb2.fetch_add(1, Ordering::SeqCst); })), extra_liveness_predicate: None,
+            };
+            let handle = spawn_chitchat(config, vec![], &transport).await.expect("spawn");
+            let wrx = { let cc = handle.chitchat(); let g = cc.lock().await; g.live_nodes_watcher() };
+            nodes.push(N { name: name.clone(), handle, cb, wrx, wseq: 0 });
+            settle().await;
+            let idx = nodes.len() - 1;
+            round!(idx);
+        }
+        let mut vc = 0;
+        for _ in 0..steps {
+            let r = rng.random_range(0..100);
+            if r < 25 {
+                // one second passes: exactly one node's round fires (node i at seconds = i-1 mod k)
+                tokio::time::advance(Duration::from_secs(1)).await; settle().await; clock += 1;
+                writeln!(out, "{}", json!({"a": "Advance", "d": 1, "clock": clock})).unwrap();
+                let idx = (clock as usize) % k;
+                round!(idx);
+            } else if r < 70 {
+                if wire.is_empty() { continue; }
+                let i = rng.random_range(0..wire.len());
+                let (f, t, b) = if rng.random_range(0..10) == 0 { wire[i].clone() } else { wire.remove(i) };
+                if rng.random_range(0..10) == 0 { continue; }   // lost
+                let dst = name_of_addr(&t);
+                let Some(idx) = nodes.iter().position(|n| n.name == dst) else { continue };
+                let tx = { net.lock().unwrap().inbox.get(&t).cloned() };
+                if let Some(tx) = tx { let _ = tx.send(Item::Msg(f, b.clone())); }
+                settle().await;
+                let new: Vec<(SocketAddr, SocketAddr, Vec<u8>)> = { let g = net.lock().unwrap(); g.sent[consumed..].to_vec() };
+                consumed += new.len();
+                let post = project(&mut nodes[idx], start).await;
+                let mut ev = json!({"a": "Process", "n": dst, "msg": model_msg(&f, &t, &b), "clock": clock, "post": post});
+                if let Some((rf, rt, rb)) = new.first() { ev["out"] = model_msg(rf, rt, rb); wire.push((*rf, *rt, rb.clone())); }
+                writeln!(out, "{}", ev).unwrap();
+            } else {
+                let idx = rng.random_range(0..nodes.len());
+                let key = format!("k{}", rng.random_range(1..4));
+                vc += 1;
+                let (a, v) = match rng.random_range(0..4) { 0 => ("Delete", String::new()), 1 => ("SetTtl", format!("v{vc}")), _ => ("Set", format!("v{vc}")) };
+                { let cc = nodes[idx].handle.chitchat(); let mut g = cc.lock().await; let st = g.self_node_state();
+                  match a { "Delete" => st.delete(&key), "SetTtl" => st.set_with_ttl(key.clone(), v.clone()), _ => st.set(key.clone(), v.clone()) } }
+                let post = project(&mut nodes[idx], start).await;
+                writeln!(out, "{}", json!({"a": a, "n": nodes[idx].name, "k": key, "v": v, "clock": clock, "post": post})).unwrap();
+            }
+        }
+        for n in nodes { let _ = n.handle.shutdown().await; }
+    }
+}
+
 async fn udp_rounds(seed: u64, rounds: u64) -> Value {
     use rand::prelude::*;
     let mut rng = StdRng::seed_from_u64(seed);
@@ -215,6 +373,17 @@ fn main() {
     let mode = std::env::args().nth(1).unwrap_or("scripts".into());
     let out = std::io::stdout();
     let mut out = out.lock();
+    if mode == "cluster" {
+        let seed: u64 = std::env::args().nth(2).and_then(|s| s.parse().ok()).unwrap_or(1);
+        let traces: u64 = std::env::args().nth(3).and_then(|s| s.parse().ok()).unwrap_or(5);
+        let k: usize = std::env::args().nth(4).and_then(|s| s.parse().ok()).unwrap_or(3);
+        let steps: usize = std::env::args().nth(5).and_then(|s| s.parse().ok()).unwrap_or(80);
+        for t in 0..traces {
+            let rt = tokio::runtime::Builder::new_current_thread().enable_time().start_paused(true).build().unwrap();
+            rt.block_on(cluster::run(seed * 1000 + t, k, steps, &mut out));
+        }
+        return;
+    }
     if mode == "udp" {
         let seed: u64 = std::env::args().nth(2).and_then(|s| s.parse().ok()).unwrap_or(1);
         let rounds: u64 = std::env::args().nth(3).and_then(|s| s.parse().ok()).unwrap_or(2);
